@@ -98,9 +98,10 @@ pub fn trivia_cfg(features: &[String]) -> TriviaCfg {
 pub fn render_case(c: &Case) -> Rendered {
     let mut cfg = GenCfg::full();
     cfg.max_stmts = 40;
-    let b = build(&c.entropy, &cfg);
+    // (feature "source:imports": a project of two files with imports of every form, see c07x)
+    let prog = if c.features.iter().any(|f| f == "source:imports") { crate::props::c07x::import_pair(&c.entropy).original } else { build(&c.entropy, &cfg).prog };
     let mut f = RandFiller::new(&c.trivia, trivia_cfg(&c.features));
-    let (proj, rs) = b.prog.render_with(&mut f);
+    let (proj, rs) = prog.render_with(&mut f);
     // which slot ids received a comment
     let mut slots = BTreeSet::new();
     for r in rs.values() {
@@ -116,6 +117,27 @@ pub fn render_case(c: &Case) -> Rendered {
     Rendered { project: proj, features: f.features.clone(), comments: f.comments, slots_with_comment: slots, placed: f.placed.clone() }
 }
 
+/// the (possibly nested) block comment that starts at `i`, and the index behind it
+fn block_comment_at(b: &[char], mut i: usize) -> (String, usize) {
+    let s = i;
+    let mut depth = 0;
+    while i < b.len() {
+        if b[i] == '/' && i + 1 < b.len() && b[i + 1] == '*' {
+            depth += 1;
+            i += 2;
+        } else if b[i] == '*' && i + 1 < b.len() && b[i + 1] == '/' {
+            depth -= 1;
+            i += 2;
+            if depth == 0 {
+                break;
+            }
+        } else {
+            i += 1;
+        }
+    }
+    (b[s..i.min(b.len())].iter().collect(), i)
+}
+
 /// comments of a text in order (block comments incl. nested ones as one item), strings skipped
 pub fn comments_of(text: &str) -> Vec<String> {
     let b: Vec<char> = text.chars().collect();
@@ -127,6 +149,21 @@ pub fn comments_of(text: &str) -> Vec<String> {
                 i += 1;
                 while i < b.len() && b[i] != '"' && b[i] != '\n' {
                     i += 1;
+                    // between the brace of an interpolation and the path there may be comments
+                    if b[i - 1] == '{' {
+                        loop {
+                            while i < b.len() && (b[i] == ' ' || b[i] == '\t') {
+                                i += 1;
+                            }
+                            if i + 1 < b.len() && b[i] == '/' && b[i + 1] == '*' {
+                                let (c, next) = block_comment_at(&b, i);
+                                out.push(c.split_whitespace().collect::<Vec<_>>().join(" "));
+                                i = next;
+                            } else {
+                                break;
+                            }
+                        }
+                    }
                 }
                 i += 1;
             }
@@ -177,10 +214,17 @@ pub fn skeleton(text: &str) -> String {
                 while i < b.len() && b[i] != '"' && b[i] != '\n' {
                     out.push(b[i]);
                     i += 1;
-                    // whitespace between the brace of an interpolation and the path is trivia, not string content
+                    // whitespace and comments between the brace of an interpolation and the path are trivia, not string content
                     if b[i - 1] == '{' {
-                        while i < b.len() && (b[i] == ' ' || b[i] == '\t') {
-                            i += 1;
+                        loop {
+                            while i < b.len() && (b[i] == ' ' || b[i] == '\t') {
+                                i += 1;
+                            }
+                            if i + 1 < b.len() && b[i] == '/' && b[i + 1] == '*' {
+                                i = block_comment_at(&b, i).1;
+                            } else {
+                                break;
+                            }
                         }
                     }
                 }
@@ -440,13 +484,15 @@ pub fn strategy(features: Vec<String>) -> impl Strategy<Value = Case> {
     (proptest::collection::vec(any::<u32>(), 8..260), proptest::collection::vec(any::<u32>(), 0..200), opts_strategy()).prop_map(move |(entropy, trivia, opts)| Case { entropy, trivia, opts, features: features.clone() })
 }
 
-pub const RULE: &str = "error-free generator programs (whole statement grammar: instructions, data, text, labels, scopes, constants, loops, conditionals, macros, segments) rendered with random trivia - block/line/nested/non-ASCII comments in every slot kind the grammar allows, CRLF, case flips - x formatter options (casings, brace position, indent 0-8, label margin 0-40, alignment, code margin 0-60). non-trivial = at least 2 comments; distinct by case hash";
+pub const RULE: &str = "error-free generator programs (whole statement grammar: instructions, data, text, labels, scopes, constants, loops, conditionals, macros, segments; and two-file projects with imports of every form, parameter blocks and aliases) rendered with random trivia - block/line/nested/non-ASCII comments in every slot kind the grammar allows, CRLF, case flips - x formatter options (casings, brace position, indent 0-8, label margin 0-40, alignment, code margin 0-60). non-trivial = at least 2 comments; distinct by case hash";
 
 pub fn run_check12(ctx: &mut Ctx) {
     ctx.rule = format!("{}. oracle C12: formatted text parses clean, same token skeleton (whitespace/comments stripped, case folded), same comments in order (modulo whitespace inside block comments), same segment bytes and diagnostic messages", RULE);
     let n = ctx.tier.pick(14_000, 300_000);
     // (`label: instruction` on one line is part of C12's clean domain; for C13 it is the trigger of a recorded finding)
     ctx.campaign_parallel("clean-domain", n, 16, || strategy(vec!["label_and_instruction_on_one_line".to_string(), "comment_before_statement_same_line".to_string(), "config_pairs_on_one_line".to_string()]), prop12, to_json);
+    let n3 = ctx.tier.pick(5000, 80_000);
+    ctx.campaign_parallel("imports", n3, 16, || strategy(vec!["source:imports".to_string(), "label_and_instruction_on_one_line".to_string(), "comment_before_statement_same_line".to_string()]), prop12, to_json);
     for f in ["multiline_block_comment", "empty_line_comment"] {
         let n2 = ctx.tier.pick(1500, 30_000);
         ctx.campaign_parallel(&format!("feature:{}", f), n2, 8, || strategy(vec![f.to_string()]), prop12, to_json);
@@ -465,6 +511,8 @@ pub fn run_check13(ctx: &mut Ctx) {
     // (`label: instruction` and two config pairs on one line were triggers of findings that have been repaired: part of
     // the clean domain. A comment in front of a statement on the same line still is one.)
     ctx.campaign_parallel("clean-domain", n, 16, || strategy(vec!["label_and_instruction_on_one_line".to_string(), "config_pairs_on_one_line".to_string()]), prop13, to_json);
+    let n3 = ctx.tier.pick(5000, 80_000);
+    ctx.campaign_parallel("imports", n3, 16, || strategy(vec!["source:imports".to_string(), "label_and_instruction_on_one_line".to_string()]), prop13, to_json);
     for f in ["multiline_block_comment", "empty_line_comment", "comment_before_statement_same_line"] {
         let n2 = ctx.tier.pick(1500, 30_000);
         ctx.campaign_parallel(&format!("feature:{}", f), n2, 8, || strategy(vec![f.to_string()]), prop13, to_json);
